@@ -34,6 +34,7 @@ def run(ctx):
             continue
         n += r15_1(ctx, a)
         per_diff_length(ctx, "R15.1b", a)
+        r15_34(ctx, a)
     ctx.floor("R15.1", n, 22)
     r15_2(ctx)
     # the bound also rests on the Head/Tail structural rules and on the order in which buffered diffs leave
@@ -184,3 +185,44 @@ def r15_2(ctx):
         ctx.verdict(uses_param, "R15.2", f, "initial-values-cut-to-parameter", f.loc(), "the returned initial values are cut with the %s parameter (%s)" % ("count" if name == "skip" else "limit", pat),
                     "`%s` returns the initial values without cutting them to the initial %s: the view starts above its bound" % (f.path, "count" if name == "skip" else "limit"))
     ctx.floor("R15.2", n, 3)
+
+
+def r15_34(ctx, a):
+    """R15.3 a growing group is not larger than the shrinking group that made room for it; R15.4 nothing grows while limit may be 0."""
+    f = a.translator
+    b = f.built
+    sw, info, arms = arms_of(b)
+    LIMIT, PREV = 2, 3
+    evs = emits(b)
+    # R15.4
+    for blk, kind, vs, e, cnt in evs:
+        if not (set(vs) & GROW):
+            continue
+        facts = conds.dominating_facts(b, blk)
+        is_lim = lambda x: strip(x)[0] == "param" and strip(x)[1] == LIMIT
+        anyx = lambda x: True
+        pos = (conds.cmp_holds(facts, "Ne", is_lim, lambda x: is_const_int(x, 0)) or conds.cmp_holds(facts, "Gt", is_lim, anyx) or conds.cmp_holds(facts, "Lt", anyx, is_lim)
+               or conds.cmp_holds(facts, "Ge", is_lim, lambda x: is_const_int(x) and strip(x)[3] >= 1))
+        ctx.verdict(pos, "R15.4", f, "no-growth-at-limit-0:%s" % "/".join(sorted(set(vs) & GROW)), b.line_at((blk, 10 ** 6)),
+                    "the growing diff is emitted only where limit >= 1 is established",
+                    "%s translator: `%s` can be emitted while the limit is 0 (no dominating test excludes limit == 0): a view with limit 0 would hold an item" % (a.name, "/".join(sorted(set(vs) & GROW))))
+    # R15.3: extend-groups in one arm
+    for v, t in arms.items():
+        region = arm_region(b, sw, t)
+        groups_ = [(blk, kind, vs, e, cnt) for blk, kind, vs, e, cnt in evs if blk in region and kind == "extend" and cnt is not None]
+        shr = [g for g in groups_ if set(g[2]) & SHRINK]
+        gro = [g for g in groups_ if set(g[2]) & GROW]
+        for g in gro:
+            for s_ in shr:
+                if not b.dominates(s_[0], g[0]):
+                    continue
+                gc, sc = strip(g[4]), strip(s_[4])
+                where = b.line_at((g[0], 10 ** 6))
+                if gc == sc or fmt(gc, 8) == fmt(sc, 8):
+                    ctx.holds("R15.3", f, "growth<=room:%s" % v, where, "the growing group has exactly the multiplicity of the shrinking group (`%s`)" % fmt(gc, 3))
+                elif sc[0] == "call" and isinstance(sc[1], str) and sc[1].endswith("cmp::min") and len(sc[3]) == 2 and any(fmt(strip(x), 8) == fmt(gc, 8) for x in sc[3]) \
+                        and any(strip(x)[0] == "param" and strip(x)[1] == LIMIT for x in sc[3]):
+                    ctx.violated("R15.3", f, "growth<=room:%s" % v, where,
+                                 "%s translator, arm %s: room is made for min(limit, n) items but n = `%s` items are pushed back: when more than `limit` items are affected the view is refilled beyond its limit" % (a.name, v, fmt(gc, 3)))
+                else:
+                    ctx.undecided("R15.3", f, "growth<=room:%s" % v, where, "multiplicities `%s` (grow) and `%s` (shrink) not comparable" % (fmt(gc, 3), fmt(sc, 3)))
